@@ -195,17 +195,19 @@ theorem symLoop_J (tbl : List Nat) (ht : Runs tbl) : ∀ (n : Nat) (c : Dec), J 
     exact symLoop_J tbl ht n r.2 h1
 
 theorem nlsfResOne_J (rate : Rate) (e : Nat) (c : Dec) (hj : J c) : J (nlsfResOne (nlsfCB rate) e c).2 := by
+  have key : ∀ (r x : Nat × Dec), J r.2 → J x.2 →
+      J (if r.1 = 0 then ((r.1 : Int) - (x.1 : Int), x.2) else if r.1 = 8 then ((r.1 : Int) + (x.1 : Int), x.2)
+         else ((r.1 : Int), r.2)).2 := by
+    intro r x h1 h2
+    split
+    · exact h2
+    · split
+      · exact h2
+      · exact h1
   unfold nlsfResOne
   dsimp only
   have h1 := J_sym c hj _ (Runs.drop e (runs_cb rate).2)
-  generalize sym c ((nlsfCB rate).ecIcdf.drop e) = r at h1 ⊢
-  have h2 := J_sym r.2 h1 _ rr_silk_NLSF_EXT_iCDF
-  generalize sym r.2 silk_NLSF_EXT_iCDF = x at h2 ⊢
-  split
-  · exact h2
-  · split
-    · exact h2
-    · exact h1
+  exact key _ _ h1 (J_sym _ h1 _ rr_silk_NLSF_EXT_iCDF)
 
 theorem nlsfResLoop_J (rate : Rate) : ∀ (es : List Nat) (c : Dec), J c → J (nlsfResLoop (nlsfCB rate) es c).2
   | [], c, hj => by unfold nlsfResLoop; exact hj
@@ -217,33 +219,32 @@ theorem nlsfResLoop_J (rate : Rate) : ∀ (es : List Nat) (c : Dec), J c → J (
     exact nlsfResLoop_J rate es r.2 h1
 
 theorem decodeLag_J (rate : Rate) (cc ps : Nat) (pl : Int) (c : Dec) (hj : J c) : J (decodeLag rate cc ps pl c).2 := by
-  unfold decodeLag
-  dsimp only
+  have key : ∀ (d a b : Nat × Dec) (k : Nat), J d.2 → J b.2 →
+      J (if d.1 > 0 then (pl + ((d.1 : Int) - 9), d.2) else (((a.1 * k + b.1 : Nat) : Int), b.2)).2 := by
+    intro d a b k hd hb
+    split
+    · exact hd
+    · exact hb
   have hd : J (if cc = 2 ∧ ps = 2 then sym c silk_pitch_delta_iCDF else (0, c)).2 := by
     split
     · exact J_sym c hj _ rr_silk_pitch_delta_iCDF
     · exact hj
-  generalize (if cc = 2 ∧ ps = 2 then sym c silk_pitch_delta_iCDF else (0, c)) = d at hd ⊢
-  have ha := J_sym d.2 hd _ rr_silk_pitch_lag_iCDF
-  generalize sym d.2 silk_pitch_lag_iCDF = a at ha ⊢
-  have hb := J_sym a.2 ha _ (runs_pitchLow rate)
-  generalize sym a.2 (pitchLagLowBits rate) = b at hb ⊢
-  split
-  · exact hd
-  · exact hb
+  unfold decodeLag
+  dsimp only
+  exact key _ _ _ _ hd (J_sym _ (J_sym _ hd _ rr_silk_pitch_lag_iCDF) _ (runs_pitchLow rate))
 
 theorem decodeLtp_J (nb cc : Nat) (c : Dec) (hj : J c) : J (decodeLtp nb cc c).2 := by
+  have key : ∀ (ltp : List Nat × Dec) (sc : Nat × Dec), J ltp.2 → J sc.2 →
+      J (if cc = 0 then sc else (0, ltp.2)).2 := by
+    intro ltp sc h2 h3
+    split
+    · exact h3
+    · exact h2
   unfold decodeLtp
   dsimp only
   have h1 := J_sym c hj _ rr_silk_LTP_per_index_iCDF
-  generalize sym c silk_LTP_per_index_iCDF = per at h1 ⊢
-  have h2 := symLoop_J _ (runs_ltp per.1) nb _ h1
-  generalize symLoop ([silk_LTP_gain_iCDF_0, silk_LTP_gain_iCDF_1, silk_LTP_gain_iCDF_2].getD per.1 []) nb per.2 = ltp at h2 ⊢
-  have h3 := J_sym ltp.2 h2 _ rr_silk_LTPscale_iCDF
-  generalize sym ltp.2 silk_LTPscale_iCDF = sc at h3 ⊢
-  split
-  · exact h3
-  · exact h2
+  have h2 := symLoop_J _ (runs_ltp (sym c silk_LTP_per_index_iCDF).1) nb _ h1
+  exact key _ _ h2 (J_sym _ h2 _ rr_silk_LTPscale_iCDF)
 
 theorem decodePitchLtp_J (rate : Rate) (nb cc ps : Nat) (pl : Int) (c : Dec) (hj : J c) :
     J (decodePitchLtp rate nb cc ps pl c).2 := by
@@ -262,31 +263,30 @@ theorem decodePitchLtp_J (rate : Rate) (nb cc ps : Nat) (pl : Int) (c : Dec) (hj
   exact h3
 
 theorem decodeType_J (v : Bool) (c : Dec) (hj : J c) : J (decodeType v c).2 := by
+  have key : ∀ (a b : Nat × Dec), J a.2 → J b.2 → J (if v = true then (a.1 + 2, a.2) else b).2 := by
+    intro a b ha hb
+    split
+    · exact ha
+    · exact hb
   unfold decodeType
   dsimp only
-  split
-  · exact J_sym c hj _ rr_silk_type_offset_VAD_iCDF
-  · exact J_sym c hj _ rr_silk_type_offset_no_VAD_iCDF
+  exact key _ _ (J_sym c hj _ rr_silk_type_offset_VAD_iCDF) (J_sym c hj _ rr_silk_type_offset_no_VAD_iCDF)
 
 theorem decodeGain0_J (cc sig : Nat) (c : Dec) (hj : J c) : J (decodeGain0 cc sig c).2 := by
+  have key : ∀ (g a b : Nat × Dec), J g.2 → J b.2 → J (if cc = 2 then g else (a.1 * 8 + b.1, b.2)).2 := by
+    intro g a b hg hb
+    split
+    · exact hg
+    · exact hb
   unfold decodeGain0
   dsimp only
-  have h0 := J_sym c hj _ rr_silk_delta_gain_iCDF
-  generalize sym c silk_delta_gain_iCDF = g at h0 ⊢
-  have h1 := J_sym c hj _ (runs_getD rows_gain sig)
-  generalize sym c (silk_gain_iCDF.getD sig []) = a at h1 ⊢
-  have h2 := J_sym a.2 h1 _ rr_silk_uniform8_iCDF
-  generalize sym a.2 silk_uniform8_iCDF = b at h2 ⊢
-  split
-  · exact h0
-  · exact h2
+  exact key _ _ _ (J_sym c hj _ rr_silk_delta_gain_iCDF)
+    (J_sym _ (J_sym c hj _ (runs_getD rows_gain sig)) _ rr_silk_uniform8_iCDF)
 
 theorem decodeNlsf_J (rate : Rate) (sig : Nat) (c : Dec) (hj : J c) : J (decodeNlsf rate sig c).2 := by
   unfold decodeNlsf
   dsimp only
-  have h1 := J_sym c hj _ (Runs.drop (sig / 2 * (nlsfCB rate).nVectors) (runs_cb rate).1)
-  generalize sym c ((nlsfCB rate).cb1.drop (sig / 2 * (nlsfCB rate).nVectors)) = n0 at h1 ⊢
-  exact nlsfResLoop_J rate _ _ h1
+  exact nlsfResLoop_J rate _ _ (J_sym c hj _ (Runs.drop (sig / 2 * (nlsfCB rate).nVectors) (runs_cb rate).1))
 
 theorem decodeInterp_J (nb : Nat) (c : Dec) (hj : J c) : J (decodeInterp nb c).2 := by
   unfold decodeInterp
